@@ -448,7 +448,9 @@ def gen_format_string(rng, fmt, mode="random"):
         off = rng.choice(["Z", "Z", "+00:00", "-07:00", "+05:30"])
         return date + "T" + t + frac + off
     if fmt == "time":
-        return "%02d:%02d:%02dZ" % (rng.randint(0, 23), rng.randint(0, 59), rng.randint(0, 59))
+        # RFC 3339 full-time: the offset is part of it
+        return "%02d:%02d:%02d%s%s" % (rng.randint(0, 23), rng.randint(0, 59), rng.randint(0, 59), rng.choice(["", "", ".5", ".125"]),
+                                      rng.choice(["Z", "Z", "+01:00", "-07:00", "+05:30"]))
     if fmt in ("ipv4", "ip") and (fmt == "ipv4" or rng.random() < 0.5):
         if mode == "min": return "0.0.0.0"
         if mode == "max": return "255.255.255.255"
@@ -462,6 +464,7 @@ def gen_format_string(rng, fmt, mode="random"):
 
 
 STRING_FORMATS = ["uuid", "date-time", "date", "ipv4", "ipv6"]
+UNRECOGNISED_STRING_FORMATS = ["time", "hostname", "email", "uri", "duration", "regex", "idn-email"]
 IGNORED_STRING_FORMATS = {None}     # formats gen_string treats as free text are decided in _gen_string
 
 
@@ -559,7 +562,9 @@ class _Universe:
         if constrained is None:
             constrained = self.has("constrained_string") and self.coin(0.3)
         if self.has("string_formats") and not constrained and self.coin(0.35):
-            t["fmt"] = r.choice(STRING_FORMATS)
+            # mostly the formats typify gives a Rust type of their own; now and then one it does not know (such a string stays a
+            # `String`: every valid value is accepted)
+            t["fmt"] = r.choice(STRING_FORMATS) if not self.coin(0.25) else r.choice(UNRECOGNISED_STRING_FORMATS)
             return t
         if constrained:
             what = r.choice(["len", "len", "pat", "both", "min", "max"])
@@ -757,6 +762,16 @@ class _Universe:
                         pass
                 v["closed"] = self.has("closed") and self.coin(0.2)
             variants.append(v)
+        # twins: two struct variants declare a member of ONE name with DIFFERENT in-line object schemas (the types generated for
+        # them are named after the enum, the variant and / or the member: two shapes must stay two types)
+        svs = [v for v in variants if v.get("shape") == "struct"]
+        if len(svs) >= 2 and self.has("inline") and self.coin(0.3):
+            tw = r.choice(["target", "detail", "info", "spec"])
+            if all(tw not in {p["name"] for p in v["props"]} for v in svs) and tw not in (tag, content):
+                shapes = [{"branch": {"type": "string"}}, {"reason": {"type": "string"}, "merged": {"type": "boolean"}}, {"n": {"type": "integer"}, "branch": {"type": "boolean"}}]
+                r.shuffle(shapes)
+                for v, sh_ in zip(svs[:2], shapes):
+                    v["props"].append({"name": tw, "t": {"k": "raw", "schema": {"type": "object", "properties": sh_}}, "state": r.choice(["required", "optional"])})
         return {"k": "enum", "tagging": tagging, "tag": tag, "content": content, "comb": "oneOf",
                 "variants": variants}
 
